@@ -202,7 +202,7 @@ PROPS = {
                    spec="Trace_Worker", mc=None, norm=tracenorm.normalise_worker),
     "C31": simprop(scenarios.c31, ["C31"], {"sleep": 2000}, spec="Trace_Worker", mc=None, norm=tracenorm.normalise_worker, keep_sleep=True),
     "C34": graphprop("Channels", "Channels", ["MC_Channels_oneshot.cfg", "MC_Channels_mpsc.cfg", "MC_Channels_notification.cfg"],
-                     ["poll:value", "poll:pending", "poll:disconnected", "drop:last-sender"],
+                     ["poll:value", "poll:pending", "poll:disconnected", "drop:last-sender", "poll:racing-send", "poll:racing-drop"],
                      "channels driven through the cfg(dust_dds_verif) re-export; every operation of the code is one critical section"),
     "C28": graphprop("WriterInst", "WriterInst", ["MC_WriterInst.cfg"],
                      ["register:new", "register:idempotent", "register:not-enabled", "register:keyless", "unregister:unknown",
@@ -212,7 +212,7 @@ PROPS = {
                      "DataWriterAsync on a keyed and a keyless type, created enabled or not enabled, driven inside the deterministic simulation"),
     "C37": graphprop("Qos", "MC_Qos", ["MC_Qos_%s.cfg" % k for k in ("writer", "reader", "topic", "publisher", "subscriber", "participant")],
                      ["create:accepted", "create:inconsistent", "set:inconsistent", "set:immutable", "set:accepted-mutable",
-                      "set:accepted-immutable-before-enable", "set:inconsistent-and-immutable", "enable"],
+                      "set:accepted-immutable-before-enable", "set:inconsistent-and-immutable", "enable", "setdefault:immutable", "setdefault:accepted-mutable"],
                      "entity under test on one participant, announced QoS read from the built-in readers of a second participant, both inside the deterministic simulation"),
     "C26": simprop(scenarios.c26, ["C26"], {"scenarios": 30, "presented": 30, "withheld": 30, "finals": 30, "mixedfinal": 15}, spec="Trace_Filter", mc=None,
                    norm=tracenorm.normalise_filter),
@@ -220,7 +220,7 @@ PROPS = {
                      ["delete:not-empty", "delete:topic-in-use", "delete:already-deleted", "use:deleted-entity", "delete-contained",
                       "delete:wrong-parent", "create:parent-deleted"],
                      "entity tree driven through the public async API inside the deterministic simulation (no network traffic needed)"),
-    "C35": graphprop("Entities", "Entities", ["MC_Entities_C35.cfg"], ["create", "delete"],
+    "C35": graphprop("Entities", "Entities", ["MC_Entities_C35.cfg", "MC_Entities_C35w.cfg", "MC_Entities_C35r.cfg"], ["create", "delete"],
                      "entity tree driven through the async API after warming the 8-bit publisher/subscriber counters to 254"),
     "C38": graphprop("FragSize", "FragSize", ["MC_FragSize.cfg"], ["set:accepted", "set:rejected"],
                      "public RtpsUdpTransportParticipantFactory API"),
